@@ -75,6 +75,22 @@ def build(x):
         return lp.Pser([B(i) for i in x[1]], x[2], x[3])
     if name == 'Place':
         return lp.Place([B(i) for i in x[1]], x[2], x[3])
+    if name == 'Pfuncn':
+        v = x[1]
+        return up.Pfuncn((lambda: v) if x[2] != 1 else (lambda inval: v), x[2])
+    if name == 'Pfunc':
+        v = x[1]
+        return up.Pfunc(lambda: v)
+    if name == 'Plazy':
+        sub = x[1]
+        return up.Plazy(lambda inval: B(sub))
+    if name == 'Prout':
+        vals = list(x[1])
+
+        def rout():
+            for v in vals:
+                yield v
+        return up.Prout(rout)
     if name == 'Placep':
         return lp.Placep([B(i) for i in x[1]], x[2], x[3])
     if name == 'Pn':
@@ -176,6 +192,9 @@ def build_rand(spec):
         return lp.Pxrand(list(spec[1]), spec[2])
     if name == 'Pshuffle':
         return lp.Pshuffle(list(spec[1]), spec[2])
+    if name == 'Pwrand':
+        return lp.Pwrand(list(spec[1]), None if spec[2] is None else list(spec[2]),
+                         spec[3])
     raise ValueError(name)
 
 
@@ -206,8 +225,18 @@ def rand_leaf_problem(spec, vals):
             return 'length'
         if any(v not in items for v in vals):
             return 'range'
-        if name == 'Pxrand' and any(a == b for a, b in zip(vals, vals[1:])):
+        if name == 'Pxrand' and len(items) > 1 and \
+                any(a == b for a, b in zip(vals, vals[1:])):
             return 'repeat'
+    elif name == 'Pwrand':
+        _, items, weights, n = spec
+        if len(vals) != n:
+            return 'length'
+        if any(v not in items for v in vals):
+            return 'range'
+        if weights is not None and any(
+                weights[items.index(v)] == 0 for v in vals):
+            return 'zero-weight-item-chosen'
     elif name == 'Pshuffle':
         _, items, reps = spec
         k = len(items)
@@ -221,8 +250,10 @@ def rand_leaf_problem(spec, vals):
     return None
 
 
-def real_take(pat, n, how='iter'):
-    """Up to n values of a *fresh* stream of pat -> (values, ended, exc)."""
+def real_take(pat, n, how='iter', inval=None):
+    """Up to n values of a *fresh* stream of pat -> (values, ended, exc).
+    inval is handed to every next()/send()/all(): value patterns must not
+    depend on it."""
     m = mods()
     stm = m['stm']
     vals = []
@@ -238,18 +269,18 @@ def real_take(pat, n, how='iter'):
             s = stm.stream(pat)
             for _ in range(n):
                 try:
-                    vals.append(s.next(None))
+                    vals.append(s.next(inval))
                 except stm.StopStream:
                     return vals, True, None
         elif how == 'embed':
-            g = stm.embed(pat, None)
+            g = stm.embed(pat, inval)
             for _ in range(n):
                 try:
-                    vals.append(g.send(None))
+                    vals.append(g.send(inval) if vals else next(g))
                 except StopIteration:
                     return vals, True, None
         elif how == 'all':
-            vals = stm.stream(pat).all()
+            vals = stm.stream(pat).all(inval)
             return vals, True, None
         else:
             raise ValueError(how)
@@ -260,7 +291,12 @@ def real_take(pat, n, how='iter'):
     return vals, False, None
 
 
-def after_end(pat, n, k):
+def _same_seq(a, b):
+    from vf.model_patterns import same_value
+    return len(a) == len(b) and all(same_value(x, y) for x, y in zip(a, b))
+
+
+def after_end(pat, n, k, midway=None):
     """History on ONE stream: pull to the end, poll k more times, all(),
     reset(), pull again -> (first, values got after the end, second, exc)."""
     m = mods()
@@ -279,6 +315,15 @@ def after_end(pat, n, k):
         first, ended = pull()
         if not ended:
             return first, None, None, None
+        if midway is not None and first:
+            # reset after some values: the sequence starts again
+            s.reset()
+            for _ in range(min(midway, len(first) - 1)):
+                s.next(None)
+            s.reset()
+            again, _ = pull()
+            if again != first and not _same_seq(again, first):
+                return first, None, again, None
         post = []
         for _ in range(k):
             try:
